@@ -97,6 +97,7 @@ def date_uses(ctx, cmd):
     if cmd == 'empty':
         for n in b.nodes('assume'):
             c, pol = unwrap_not(n.data['cond'], n.data['pol'])
-            if contains(c, lambda x: isinstance(x, Call) and x.fn.endswith('timedelta')):
+            if contains(c, lambda x: isinstance(x, Cmp) and x.op in ('<', '>', '<=', '>=')
+                        and (has_strptime(x.left) or has_strptime(x.right))):
                 out.append(('age comparison', n, c))
     return out
